@@ -277,6 +277,15 @@ def masses(cfg, rng_np):
     return m1, m2
 
 
+def tols(cfg):
+    """(tol_residual, tol_increment, tol_distance): `tol_mode` makes one criterion the binding one (the others are left at
+    their non-restrictive default) so that each clause of the stopping rule is exercised on its own"""
+    big = float(np.finfo(float).max)
+    mode = cfg.tol_mode or "all"
+    return (cfg.tol if mode in ("all", "residual") else big, cfg.tol if mode in ("all", "increment") else big,
+            cfg.tol if mode in ("all", "distance") else big)
+
+
 def build(d, cfg, num_iter=None):
     W = d.measure.wasserstein
     shape = tuple(cfg.shape)
@@ -294,7 +303,7 @@ def build(d, cfg, num_iter=None):
     opts = dict(
         return_info=True, num_iter=cfg.num_iter if num_iter is None else num_iter, formulation=cfg.formulation, linear_solver=cfg.solver,
         l1_mode=getattr(W.L1Mode, cfg.l1), mobility_mode=getattr(W.MobilityMode, cfg.mobility), aa_depth=cfg.aa,
-        tol_residual=cfg.tol, tol_increment=cfg.tol, tol_distance=cfg.tol,
+        tol_residual=tols(cfg)[0], tol_increment=tols(cfg)[1], tol_distance=tols(cfg)[2],
         L=cfg.L,
     )
     if cfg.solver in ("amg", "cg"):
@@ -402,6 +411,7 @@ def run_solver(d, cfg, fault=None, num_iter=None):
             warnings.simplefilter("always")
             out = w(i1, i2)
         cap["warned"] = any("abruptly stopped" in str(x.message) for x in rec)
+        cap["pp_failed"] = any("Pressure post-processing failed" in str(x.message) for x in rec)
         cap["w"], cap["out"], cap["opts"] = w, out, opts
         # magnitude of the integrated masses: the source f = M (m2 - m1) carries a rounding error of eps times this
         cap["mass_scale"] = float(max(np.abs(w.mass_matrix_cells @ np.ravel(np.abs(i1.img), "F")).max(),
@@ -420,14 +430,14 @@ def run_solver(d, cfg, fault=None, num_iter=None):
 
 def criteria_met_at(cfg, hist, i):
     """documented stopping rule evaluated on entry i of the convergence history (pass i)."""
-    tol = cfg.tol
+    tr, ti, td = tols(cfg)
     with np.errstate(all="ignore"):
         try:
             if cfg.method == "newton":
-                return bool(hist["residual"][i] < tol * hist["residual"][0] and hist["flux_increment"][i] < tol * hist["flux_increment"][0]
-                            and hist["distance_increment"][i] < tol)
-            return bool(hist["aux_force_increment"][i] < tol * hist["aux_force_increment"][0]
-                        and hist["distance_increment"][i] / hist["distance"][i] < tol and hist["mass_conservation_residual"][i] < tol)
+                return bool(hist["residual"][i] < tr * hist["residual"][0] and hist["flux_increment"][i] < ti * hist["flux_increment"][0]
+                            and hist["distance_increment"][i] < td)
+            return bool(hist["aux_force_increment"][i] < ti * hist["aux_force_increment"][0]
+                        and hist["distance_increment"][i] / hist["distance"][i] < td and hist["mass_conservation_residual"][i] < tr)
         except (KeyError, IndexError):
             return False
 
@@ -523,14 +533,28 @@ def check_run(ctx, d, cfg, cap, fault, num_iter, label):
     if md is None or not np.array_equal(np.ravel(md, "F"), cap["mass_diff"]):
         ctx.fail(f"{sig0}:aux(mass_diff)", f"info['mass_diff'] differs from what was solved for ({label})", rp)
     k = int(w.constrained_cell_flat_index)
-    pk = float(abs(p[k])) if nc else 0.0
     finite_p = p[np.isfinite(p)]
     if finite_p.size != p.size:
-        # non-finite pressures in other cells (CG breakdown on extreme mobility weights) are recorded, not judged: the
-        # property speaks about the flux, the distance and the pinned value
         ctx.cov["runs_with_nonfinite_pressure"] = ctx.cov.get("runs_with_nonfinite_pressure", 0) + 1
-    if not pk <= 1e-10 * max(float(np.abs(finite_p).max()) if finite_p.size else 0.0, 1e-300) + 1e-300:
-        ctx.fail(f"{sig0}:pressure-not-pinned", f"pressure of the reference cell is {p[k]!r}, not 0 ({label})", rp)
+        umax = float(np.abs(u).max()) if nf else 0.0
+        vanishing_face = nf > 0 and bool(np.any(np.abs(u) <= 1e-12 * max(umax, 1e-300)))
+        if cfg.method != "newton" and cap.get("pp_failed") and finite_p.size == 0 and vanishing_face:
+            # the documented marker of a failed pressure post-processing (singular mobility-weighted system on a face with
+            # vanishing flux): "pressure pinned at the reference cell" cannot hold -> reported, exact input class in the signature
+            ctx.fail(f"C04:{cfg.method}.__call__:pressure-unavailable(nan):singular-postprocessing:{cfg.mobility}",
+                     f"the pressure returned by Bregman is NaN: the post-processing pressure solve failed on a returned flux with a vanishing "
+                     f"face flux ({label})", rp)
+        elif cfg.method != "newton" and cfg.aa and not cap.get("pp_failed"):
+            ctx.fail(f"C04:{cfg.method}._solve:pressure-non-finite:anderson=on:{cfg.solver}",
+                     f"the returned pressure has non-finite entries ({int(p.size - finite_p.size)} of {p.size}; {label})", rp)
+        else:
+            ctx.fail(f"C04:{cfg.method}._solve:pressure-non-finite",
+                     f"the returned pressure has non-finite entries ({int(p.size - finite_p.size)} of {p.size}) outside the documented "
+                     f"post-processing failure ({label})", rp)
+    elif nc:
+        pk = float(abs(p[k]))
+        if not pk <= 1e-10 * max(float(np.abs(p).max()), 1e-300) + 1e-300:
+            ctx.fail(f"{sig0}:pressure-not-pinned", f"pressure of the reference cell is {p[k]!r}, not 0 ({label})", rp)
     # (4) honest status
     met_last = n_done > 0 and ev[n_done - 1] == "ok1" and n_done - 1 > 1
     if converged and (faulted or cap["warned"] or not met_last):
@@ -626,11 +650,17 @@ def configs(ctx):
             shape=list(shape), voxel=[2.0 ** rng.randint(-2, 0) for _ in range(dim)], masses=["dense", "compact", "single"][(i // 3) % 3],
             method=method, l1=l1s[(i // 2) % 3], mobility=mobs[i % 5], formulation=pairs[(i * 2 + i // 5) % 5][0], solver=pairs[(i * 2 + i // 5) % 5][1],
             aa=[0, 2][(i // 2) % 2], weighted=bool((i // 4) % 2), mseed=rng.randint(0, 10 ** 6),
-            num_iter=[5, 4, 6, 3][i % 4], tol=[1e-14, float(np.finfo(float).max), 1e-3][(i // 3) % 3],
+            num_iter=[5, 4, 6, 3][i % 4], tol=[1e-14, float(np.finfo(float).max), 1e-3, 1e-6][(i // 3) % 4],
+            tol_mode=["all", "distance", "residual", "increment"][(i // 2) % 4],
             # Newton: L is a cut-off of the mobility; Bregman: fixed penalty parameter (the Bregman operator is scaled by 1/L,
             # the initial Darcy operator by L_init = 1, so L != 1 distinguishes the two)
             L=(1e-2 if method == "newton" else [1.0, 0.1, 2.0, 10.0, 0.5][(i // 3 + i) % 5]),
         )
+        # every clause of the stopping rule is the binding one for every method in the first configurations
+        must = [("newton", "distance", 1e-6), ("bregman", "increment", 1e-3), ("bregman_adaptive", "residual", 1e-6),
+                ("newton", "residual", 1e-3), ("bregman", "distance", 1e-6), ("newton", "increment", 1e-3)]
+        if i < len(must) and must[i][0] == method:
+            cfg["tol_mode"], cfg["tol"], cfg["num_iter"] = must[i][1], must[i][2], 6
         k = cfg.num_iter
         cfg["fault_at"] = sorted({0, 1, rng.randint(2, k - 1) if k > 2 else 1}) if not ctx.big else list(range(0, min(k, 6)))
         # program points: all of them in the thorough tier; in quick the inner solve always plus a rotating pair
